@@ -311,6 +311,50 @@ def scen_soft_setup(env, cfg):
     env.check(SOFT, abs(float(b) - ref) <= 1e-6 * max(ref, 1e-12) + 1e-13)
 
 
+EST_SOFT = "BER_analizer('estimator', soft) sets up the same integral as theory_BER(mu1-mu0, s0, s1, M, 'soft')"
+
+
+def scen_est_soft_setup(env, cfg):
+    """the soft-decision estimator depends only on mu1-mu0, s0, s1 and M: its integrand, limits and prefactors are those of theory_BER."""
+    P = env.lib.ppm
+    M = cfg['M']
+    mu0 = env.real('mu0', -1, 1)
+    d = env.real('d', 0.1, 5)
+    s0 = env.real('s0', 0.05, 1)
+    s1 = env.real('s1', 0.05, 1)
+    e = _eye(env, mu0, mu0 + d, s0, s1)
+    if env.symbolic:
+        # the threshold search (1000-point grid, decided in the estimator-ppm configurations) does not enter the soft value
+        saved = P.THRESHOLD_EST
+        P.THRESHOLD_EST = lambda eye_obj, M_: mu0 + d / 2
+    try:
+        b = _scalar(env, P.BER_analizer('estimator', eye_obj=e, M=M, decision='soft'))
+    finally:
+        if env.symbolic:
+            P.THRESHOLD_EST = saved
+    if env.symbolic:
+        import z3
+        from vf.core import SB
+        q = [ev[1] for ev in env.events('quad')]
+        ok = len(q) == 1 and q[0]['a'] == -float('inf') and q[0]['b'] == float('inf')
+        if not ok:
+            env.check(EST_SOFT, False)
+            return
+        x = env.real('x', -8, 8)
+        got = q[0]['f'](x)
+        ref = (1 - _Qf(env, (d + s1 * x) / s0)) ** (M - 1) * env.exp(-x * x / 2)
+        cnd = env.And(env.eq(got, ref, scale=1),
+                      env.eq(b * (2 * (M - 1)), (1 - q[0]['out'] / env.sqrt(2 * env.pi())) * M, scale=2 * M))
+        if isinstance(cnd, SB):
+            steer = [(s1 >= 2 * s0).t, (d <= 6 * s1).t, (d >= 2 * s1).t, (s0 >= env.const('0.08')).t]
+            cnd = SB(cnd.t, cnd.rt, z3.And(z3.Not(cnd.t), *steer))
+        env.check(EST_SOFT, cnd)
+        return
+    ref = P.theory_BER(d, s0, s1, M, 'soft')
+    ref = float(_scalar(env, ref))
+    env.check(EST_SOFT, abs(float(b) - ref) <= 1e-6 * max(ref, 1e-12) + 1e-13)
+
+
 def scen_theory(env, cfg):
     kind = cfg['kind']
     if kind == 'reject':
@@ -381,4 +425,5 @@ def configs(tier):
         out.append((f'theory-ppm{M}', scen_theory, dict(kind='ppm', M=M), {'validate': 1}))
     for M in ((4, 16) if q else (2, 4, 8, 16, 64)):
         out.append((f'theory-ppm{M}-soft-setup', scen_soft_setup, dict(M=M), {'validate': 2}))
+        out.append((f'estimator-ppm{M}-soft-setup', scen_est_soft_setup, dict(M=M), {'validate': 2}))
     return out
